@@ -187,6 +187,7 @@ func (x *Explorer) worker(id int) {
 		}
 		first = false
 		ex := NewExec(x.eng, sol, x.name, it.prefix)
+		ex.entryPkg = x.fn.Pkg
 		end, sample := x.runOne(ex)
 
 		x.mu.Lock()
